@@ -30,6 +30,10 @@ pub fn c06(ctx: &Ctx, subj: &dyn DynSubject, ty: &Ty, rep: &mut Report) {
     if !subj.ser_type_is_self() {
         rep.notes.push(format!("{}: SerType differs from Self", subj.name()));
     }
+    // (c) golden corpus written by the pinned build (fixed universe only)
+    if ctx.u.label == "fixed" {
+        corpus_read(ctx, subj, ty, rep);
+    }
     let strat = strategy_for(ctx, ty, GenCfg::default());
     crate::runner::run_cases(ctx, subj, rep, strat, ctx.cases, &|v, log| {
         self_check(subj, v)?;
@@ -186,4 +190,89 @@ pub fn pad_formula_grid(rep: &mut Report) -> Result<(), String> {
     rep.evaluations += n;
     *rep.exhaustive_parts.entry("pad_align_to grid".into()).or_default() += n;
     Ok(())
+}
+
+pub const CORPUS_DIR: &str = "/verif/corpus";
+
+fn hex(b: &[u8]) -> String {
+    b.iter().map(|x| format!("{:02x}", x)).collect()
+}
+fn unhex(s: &str) -> Vec<u8> {
+    (0..s.len() / 2).map(|i| u8::from_str_radix(&s[2 * i..2 * i + 2], 16).unwrap_or(0)).collect()
+}
+
+/// Write the corpus entry of one subject: 4 deterministic values (the minimal one + 3 generated).
+pub fn corpus_write(ctx: &Ctx, subj: &dyn DynSubject, ty: &Ty) -> Result<(), String> {
+    let strat = vmodel::val::val_strategy(ctx.u, ty, GenCfg { max_len: 6, long: false });
+    let mut vals = vec![vmodel::val::min_val(ctx.u, ty)];
+    // constant seed: the corpus must not depend on VERIF_SEED
+    let ctx0 = Ctx { u: ctx.u, model: vmodel::format::Model::new(ctx.u, ctx.model.layouts), units: ctx.units, tier: ctx.tier, seed: 0xC0_4B05, prop: "corpus".into(), cases: 1, tmp: ctx.tmp.clone(), known: ctx.known };
+    vals.extend(crate::runner::sample_vals(&ctx0, &["corpus", subj.name()], &strat, 3));
+    let mut cases = vec![];
+    for v in vals {
+        let (bytes, _) = ser_bytes(subj, &v).map_err(|f| f.message)?;
+        cases.push(json!({"val": serde_json::to_value(&v).unwrap(), "hex": hex(&bytes)}));
+    }
+    let (th, ah) = subj.hashes();
+    let j = json!({"subject": subj.name(), "index": subj.index(), "type_hash": format!("{:016x}", th), "align_hash": format!("{:016x}", ah), "cases": cases});
+    std::fs::create_dir_all(CORPUS_DIR).map_err(|e| e.to_string())?;
+    std::fs::write(format!("{}/{:04}.json", CORPUS_DIR, subj.index()), serde_json::to_string(&j).unwrap()).map_err(|e| e.to_string())
+}
+
+fn corpus_read(ctx: &Ctx, subj: &dyn DynSubject, ty: &Ty, rep: &mut Report) {
+    let path = format!("{}/{:04}.json", CORPUS_DIR, subj.index());
+    let Some(j) = std::fs::read_to_string(&path).ok().and_then(|s| serde_json::from_str::<Value>(&s).ok()) else {
+        rep.notes.push(format!("no corpus entry for {}", subj.name()));
+        return;
+    };
+    let failures = std::cell::RefCell::new(Vec::new());
+    let bad = |sig: &str, msg: String, val: Option<Val>| {
+        failures.borrow_mut().push(crate::report::Failure { property: ctx.prop.clone(), subject: subj.name().into(), subject_index: subj.index(), val, env: json!({"corpus_file": path}), message: msg, signature: sig.into() });
+    };
+    if j["subject"].as_str() != Some(subj.name()) {
+        bad("harness:corpus-mismatch", format!("corpus entry {} is for {:?}", path, j["subject"]), None);
+        rep.failures.extend(failures.into_inner());
+        return;
+    }
+    let (th, ah) = subj.hashes();
+    if j["type_hash"].as_str() != Some(&format!("{:016x}", th)) || j["align_hash"].as_str() != Some(&format!("{:016x}", ah)) {
+        bad("corpus-hash-drift", format!("hashes of {} changed since the corpus was written (recorded {}/{}, now {:016x}/{:016x}): files written by earlier builds are no longer accepted", subj.name(), j["type_hash"], j["align_hash"], th, ah), None);
+        rep.failures.extend(failures.into_inner());
+        return;
+    }
+    for c in j["cases"].as_array().cloned().unwrap_or_default() {
+        let Ok(v) = serde_json::from_value::<Val>(c["val"].clone()) else { continue };
+        let file = unhex(c["hex"].as_str().unwrap_or(""));
+        rep.evaluations += 1;
+        rep.class("corpus-file");
+        match full_of(subj, &file) {
+            Ok(Ok(x)) if x == v => {}
+            other => {
+                bad("corpus-full", format!("corpus file of {} no longer full-copy deserializes to the recorded value: {:?}", subj.name(), other.map(|r| r.map(|x| x.show()).map_err(|e| format!("{:?}", e)))), Some(v));
+                break;
+            }
+        }
+        let pl = crate::faults::Placed::new(&file, 4096, 0);
+        match guard(|| subj.eps(pl.bytes()).map(|o| o.val)) {
+            Ok(Ok(x)) if x == v => {}
+            other => {
+                bad("corpus-eps", format!("corpus file of {} no longer ε-copy deserializes to the recorded value: {:?}", subj.name(), other.map(|r| r.map(|x| x.show()).map_err(|e| format!("{:?}", e)))), Some(v));
+                break;
+            }
+        }
+        let Ok(enc) = model_enc(ctx, subj, ty, &v) else { continue };
+        match ser_bytes(subj, &v) {
+            Ok((now, _)) if now.len() == file.len() && same_masked(&enc, &now, &file) => {}
+            Ok((now, _)) => {
+                let i = (0..now.len().min(file.len())).find(|i| enc.mask.get(*i).copied().unwrap_or(true) && now[*i] != file[*i]).unwrap_or(now.len().min(file.len()));
+                bad("corpus-reserialize", format!("re-serializing the recorded value of {} no longer reproduces the corpus file (first difference at byte {}, lengths {} / {})", subj.name(), i, now.len(), file.len()), Some(v));
+                break;
+            }
+            Err(f) => {
+                bad("corpus-reserialize", f.message, Some(v));
+                break;
+            }
+        }
+    }
+    rep.failures.extend(failures.into_inner());
 }
